@@ -105,6 +105,26 @@ def snap_pool(pool) -> List[dict]:
     return sorted(out, key=lambda t: (t['point'], t['name']))
 
 
+class _ExecNotify:
+    """Wraps a queued command generator: emits CMD_EXEC (with the pool as
+    it is then) right before the scheduler executes the command."""
+
+    def __init__(self, drv, schd, name, args, gen):
+        self.drv, self.schd, self.name, self.args, self.gen = (
+            drv, schd, name, args, gen)
+
+    def __aiter__(self):
+        return self
+
+    async def __anext__(self):
+        self.drv.bus.emit('CMD_EXEC', cmd=self.name, args=self.args,
+                          pool=snap_pool(self.schd.pool))
+        return await self.gen.__anext__()
+
+    def __getattr__(self, k):
+        return getattr(self.gen, k)
+
+
 class Driver:
     def __init__(self, case: dict, rundir_home: str, world: W.JobWorld,
                  phase: dict, monitors: list):
@@ -383,6 +403,14 @@ class Driver:
                 name, args, {})
         except Exception as exc:
             ok, msg = False, f'{type(exc).__name__}: {exc}'
+        if ok:
+            # tell monitors when the queued command is actually executed
+            # (never, if the scheduler stops first)
+            q = schd.command_queue.queue
+            if q and q[-1][0] == msg:
+                uuid, cname, gen = q[-1]
+                q[-1] = (uuid, cname, _ExecNotify(self, schd, name,
+                                                  act.get('args', {}), gen))
         self.cmd_results.append({'cmd': name, 'args': act.get('args', {}),
                                  'it': self.bus.it, 'ok': bool(ok),
                                  'msg': str(msg)[:200]})
